@@ -6,6 +6,8 @@ package main
 // Oracle: gauge book + per-epoch step oracle computed from the observed pre-epoch state.
 
 import (
+	sftypes "github.com/osmosis-labs/osmosis/v31/x/superfluid/types"
+	gammtypes "github.com/osmosis-labs/osmosis/v31/x/gamm/types"
 	clmodel "github.com/osmosis-labs/osmosis/v31/x/concentrated-liquidity/model"
 	cltypes "github.com/osmosis-labs/osmosis/v31/x/concentrated-liquidity/types"
 	"fmt"
@@ -79,6 +81,23 @@ func runC09(c *vk.Ctx) {
 					TokensProvided: sdk.NewCoins(sdk.NewCoin("rwd", sdkmath.NewIntWithDecimal(1, 12)), sdk.NewCoin("uosmo", sdkmath.NewIntWithDecimal(1, 12))), TokenMinAmount0: sdkmath.ZeroInt(), TokenMinAmount1: sdkmath.ZeroInt()})
 			}
 		}
+		// every fourth history: the price pool's share denom is a superfluid asset, the funder holds a delegated lock and
+		// non-perpetual gauges pay to the synthetic (staking marker) denom. For those gauges the pacing clauses are
+		// checked: at most one paying epoch per epoch, at most the per-epoch share, never more than deposited.
+		synth := map[uint64]sdk.Coins{} // gauge id -> deposited
+		synthDenom := ""
+		if i%4 == 1 {
+			share := gammtypes.GetPoolShareDenom(pricePool)
+			if err := ch.App.SuperfluidKeeper.AddNewSuperfluidAsset(ch.Ctx, sftypes.SuperfluidAsset{Denom: share, AssetType: sftypes.SuperfluidAssetTypeLPShare}); err == nil {
+				have := ch.Bal(funder.Addr, share)
+				res := ch.Exec(&sftypes.MsgLockAndSuperfluidDelegate{Sender: funder.Addr.String(), Coins: sdk.NewCoins(sdk.NewCoin(share, have.QuoRaw(3))), ValAddr: ch.Vals[0].OpAddr.String()})
+				if res.OK() {
+					synthDenom = share + "/superbonding/" + ch.Vals[0].OpAddr.String()
+				} else {
+					c.Logf("superfluid setup rejected: %s", trunc(res.ErrString(), 200))
+				}
+			}
+		}
 		gauges := map[uint64]*c09Gauge{}
 		sigBase := func() map[string]any { return map[string]any{} }
 		rewardDenoms := []string{"uosmo", "rwd"}
@@ -100,7 +119,21 @@ func runC09(c *vk.Ctx) {
 				if clPool != 0 && r.Intn(8) == 0 {
 					opk = 10
 				}
+				if synthDenom != "" && r.Intn(8) == 0 {
+					opk = 11
+				}
 				switch opk {
+				case 11: // a non-perpetual gauge on the superfluid staking-marker denom
+					coins := sdk.NewCoins(sdk.NewCoin("uosmo", sdkmath.NewIntFromBigInt(r.BigMag(3, 18))))
+					n := uint64(2 + r.Intn(5))
+					stp, _ := ch.App.StakingKeeper.GetParams(ch.Ctx)
+					gm := &incentivestypes.MsgCreateGauge{IsPerpetual: false, Owner: funder.Addr.String(), DistributeTo: lockuptypes.QueryCondition{LockQueryType: lockuptypes.ByDuration, Denom: synthDenom, Duration: stp.UnbondingTime}, Coins: coins, StartTime: ch.Ctx.BlockTime(), NumEpochsPaidOver: n}
+					c.Logf("CreateGauge(on %s, %s, epochs %d)", synthDenom, coins, n)
+					if res := ch.Exec(gm); res.OK() {
+						synth[ik.GetLastGaugeID(ch.Ctx)] = coins
+					} else {
+						c.Logf("  rejected: %s", trunc(res.ErrString(), 160))
+					}
 				case 10: // an external gauge on the concentrated pool: one or two reward denoms, amounts from dust to large
 					coins := sdk.NewCoins(sdk.NewCoin("uosmo", sdkmath.NewIntFromBigInt(r.BigMag(0, 18))))
 					if r.Bool() {
@@ -369,11 +402,20 @@ func runC09(c *vk.Ctx) {
 			// balances of everybody who may receive
 			watch := map[string]sdk.AccAddress{}
 			for _, a := range ch.Accs {
+				if synthDenom != "" && a.Addr.Equals(funder.Addr) {
+					continue // the funder's delegated lock is paid by the synthetic-denom gauges, which are checked by themselves
+				}
 				watch[a.Addr.String()] = a.Addr
 			}
 			before := map[string]sdk.Coins{}
 			for s, a := range watch {
 				before[s] = ch.AllBal(ctx, a)
+			}
+			synthBefore := map[uint64]incentivestypes.Gauge{}
+			for id := range synth {
+				if g, err := ik.GetGaugeByID(ctx, id); err == nil {
+					synthBefore[id] = *g
+				}
 			}
 			finishedBefore := map[uint64]sdk.Coins{}
 			for _, g := range ik.GetFinishedGauges(ctx) {
@@ -449,6 +491,41 @@ func runC09(c *vk.Ctx) {
 				if !isFin {
 					need = need.Add(g.Coins.Sub(g.DistributedCoins...)...)
 				}
+			}
+			syIDs := make([]uint64, 0, len(synth))
+			for id := range synth {
+				syIDs = append(syIDs, id)
+			}
+			sort.Slice(syIDs, func(a, b int) bool { return syIDs[a] < syIDs[b] })
+			for _, id := range syIDs {
+				g, err := ik.GetGaugeByID(ctx, id)
+				b, okb := synthBefore[id]
+				if err != nil || !okb {
+					continue
+				}
+				sg := map[string]any{"synthetic_denom": true}
+				if !g.Coins.IsAllGTE(g.DistributedCoins) || !synth[id].Equal(g.Coins) {
+					c.Violate("C09.overpaid", sg, "gauge %d on %s: deposited %s, recorded coins %s, distributed %s", id, synthDenom, synth[id], g.Coins, g.DistributedCoins)
+					return
+				}
+				if g.FilledEpochs > b.FilledEpochs+1 || g.FilledEpochs > g.NumEpochsPaidOver {
+					c.Violate("C09.gauge_counters", sg, "epoch %d: gauge %d on %s went from %d to %d paying epochs in one epoch (created for %d)", info.CurrentEpoch, id, synthDenom, b.FilledEpochs, g.FilledEpochs, g.NumEpochsPaidOver)
+					return
+				}
+				if rem := b.NumEpochsPaidOver - b.FilledEpochs; rem > 0 {
+					for _, cn := range b.Coins.Sub(b.DistributedCoins...) {
+						share := cn.Amount.QuoRaw(int64(rem))
+						paid := g.DistributedCoins.AmountOf(cn.Denom).Sub(b.DistributedCoins.AmountOf(cn.Denom))
+						if paid.GT(share) {
+							c.Violate("C09.per_epoch_payment", sg, "epoch %d: gauge %d on %s paid %s%s in one epoch, its per-epoch share (remaining %s over %d epochs) is %s", info.CurrentEpoch, id, synthDenom, paid, cn.Denom, cn.Amount, rem, share)
+							return
+						}
+					}
+				}
+				if _, isFin := fin[id]; !isFin {
+					need = need.Add(g.Coins.Sub(g.DistributedCoins...)...)
+				}
+				c.Class("synthetic-gauge|filled%d|paid%v", bucket(int(g.FilledEpochs)), g.FilledEpochs > b.FilledEpochs)
 			}
 			nlIDs := make([]uint64, 0, len(noLock))
 			for id := range noLock {
